@@ -194,6 +194,16 @@ def build(reg, src):
                 break
         res.append(dict(name="klongpy/parser.py::kg_read#dict-literal-evaluates-through-copy_lambda", ok=found, backend='ast-structural',
                         detail="':{' branch returns KGCall(copy_lambda, ...)" if found else "':{' branch does not return a call of copy_lambda"))
+        bad = [r for r in res if not r['ok']]
+        if bad:
+            from pyvc.run import run_replay
+            from replay import c10 as rp10
+            r = run_replay(rp10.replay_dict, {}, bad[0]['name'], timeout_s=60)
+            for b in bad:
+                b['confirmed'] = bool(r.get('confirmed'))
+                b['replay'] = dict(result=r)
+                if r.get('confirmed'):
+                    b['detail'] += f" | real code: {r.get('detail')}"
         return res
     reg.extra_checks.append(check_literal)
 
